@@ -643,7 +643,7 @@ def run(ctx):
             bad_here = False
             for i in range(4):
                 if BIG128[i] == 0 and not fft_ok:
-                    if outs[i].startswith("panic"):
+                    if outs[i].startswith("panic") and outs[i] != model[(k, BIG128[i])]:
                         broken.append(f"{BE_NAMES[i]} panics outside its magnitude domain: {req_line(c)}")
                     continue
                 if outs[i] != model[(k, BIG128[i])]:
